@@ -298,7 +298,8 @@ FOutcome(o) == LET bs == MBlock(o)  cnt == Len(SelIdx(o)) IN
                ELSE IF bs = 0 THEN "raises-before"                  \* num_symbols % 0
                ELSE IF (o.n * cnt) % bs # 0 THEN "raises-before"    \* "must be a multiple"
                ELSE "raises-in-block"                               \* broadcast error after the first sample
-\* sparse DFT: sum_i tap_i W^(k d_i)  (what np.fft.fft of the zero-padded taps gives while memory < fft)
+\* sparse DFT: sum_i tap_i W^(k d_i)  (np.fft.fft of the zero-padded taps; a delay >= fft ALIASES onto d mod fft,
+\* as the DFT of the reported response demands - W is periodic - so the memory may exceed the fft size)
 MFreqY(c, D, T, d, p, o, s) ==
   LET sel == SelIdx(o)
       cnt == Len(sel)
@@ -342,7 +343,7 @@ Transmit ==
 \* corrupt_data_in_freq_domain(signal o.s of o.n blocks, o.fft, selection o.sk / o.sel)
 TransmitFreq ==
   \E j \in 1..Len(C.ops) : LET o == C.ops[j] IN
-    /\ o.k = "F" /\ Mem(XDisc(C.prof)) < o.fft
+    /\ o.k = "F"
     /\ LET sel == SelIdx(o) IN /\ Len(sel) >= 1 /\ o.n * Len(sel) <= MaxN
                                /\ \A q \in 1..Len(sel) : sel[q] \in 0..(o.fft - 1)
     /\ gpos + o.n * o.fft <= C.maxpos
